@@ -4,7 +4,6 @@ import MythVerif.Proofs.WsQueueTsoTac
 namespace MythVerif.WsqTso
 open MythVerif.Wsq
 
-set_option maxHeartbeats 4000000 in
 theorem f_O_baseI (s s' : St) (v : Int) (e : Elem) (rest : List Sto) : Inv s → s.bufO = .baseI v e :: rest →
     s' = applySto { s with bufO := rest } (.baseI v e) → Inv s' := by
   intro h hb hs
